@@ -31,6 +31,7 @@ SYSTEM_KEYS = {
     "hexagonal": ["11", "33", "12", "13", "44"],
     "tetragonal6": ["11", "33", "12", "13", "44", "66"],
     "orthorhombic": synth.ORTHO,
+    "monoclinic": list(synth.ORTHO) + ["15", "25", "35", "46"],     # mixed components of either sign
     "triclinic": synth.ALL_KEYS,
 }
 ALL_PAIRS = [(i, j) for i in range(1, 7) for j in range(i, 7)]          # order of s_all_keys
@@ -411,7 +412,7 @@ def make_cases(ctx, rd, main):
     rng = ctx.rng
     ncases = 30 if ctx.tier == "quick" else 400
     cases = []
-    tabs = ["none", "ortho", "full", "cubic", "hexagonal", "orthorhombic", "tetragonal6", "ortho"]
+    tabs = ["none", "ortho", "full", "cubic", "hexagonal", "orthorhombic", "tetragonal6", "monoclinic"]
     for i in range(ncases):
         mode = ["none", "volume", "pressure"][i % 3]
         tk = tabs[(i // 3) % len(tabs)] if i >= 3 else ["none", "ortho", "ortho"][i]
@@ -559,7 +560,7 @@ def run(ctx):
     ctx.rule = ("synthetic static data sets (tools/synth.py: 4-12 strictly decreasing volumes, third-order "
                 "Birch-Murnaghan energies rounded to 6 decimals, static tables with 3/5/6/9/21 moduli) x "
                 "mode none/volume/pressure x grid size in {11,21,51,101,201,401} x v-ratio default or 1.05-1.3 x "
-                "with/without table, --system (cubic, hexagonal, tetragonal6, orthorhombic; table consistent "
+                "with/without table, --system (cubic, hexagonal, tetragonal6, orthorhombic, monoclinic with mixed components of either sign; table consistent "
                 "with the system), --cellmass, pressure ranges inside the fitted range, optional sampling "
                 "stride 2/3/5; every invocation is a distinct non-trivial case (a full printed table)")
     ctx.trusted += [
